@@ -3,6 +3,7 @@
 from __future__ import annotations
 
 import ast
+import copy
 import itertools
 from typing import Any, Callable
 
@@ -286,6 +287,66 @@ def _subst_attr(e: ast.expr, attr: str, name: str) -> ast.expr:
             return self.generic_visit(n)
 
     return T().visit(e)
+
+
+class _Found(Exception):
+    def __init__(self, value: Any) -> None:
+        self.value = value
+
+
+def _fold_delay(ctx: Ctx, stmts: list[ast.stmt], sched_call: ast.Call, n: int) -> Any:
+    """Constant propagation over a statement list: locals get folded values (the failure count is n), an `if`
+    whose test folds is followed into the taken branch only, anything else is skipped; returns the folded
+    argument of the scheduler call."""
+    env: dict[str, Any] = {"__n__": n}
+
+    def ev(e: ast.expr) -> Any:
+        e2 = _subst_attr(copy.deepcopy(e), "_tries", "__n__")
+        if any(isinstance(x, ast.Attribute) and _self_attr(x) for x in ast.walk(e2)) or any(isinstance(x, ast.Await) for x in ast.walk(e2)):
+            return Unknown
+        try:
+            return ctx.sym.eval(e2, MOD, dict(env))
+        except Exception:
+            return Unknown
+
+    def run(body: list[ast.stmt]) -> None:
+        for st in body:
+            for x in ast.walk(st):
+                if x is sched_call:
+                    if isinstance(st, ast.Expr) or isinstance(st, (ast.Assign, ast.Return)):
+                        raise _Found(ev(sched_call.args[0]))
+            if isinstance(st, ast.Assign) and len(st.targets) == 1 and isinstance(st.targets[0], ast.Name):
+                env[st.targets[0].id] = ev(st.value)
+            elif isinstance(st, ast.AnnAssign) and isinstance(st.target, ast.Name) and st.value is not None:
+                env[st.target.id] = ev(st.value)
+            elif isinstance(st, ast.AugAssign) and isinstance(st.target, ast.Name):
+                env[st.target.id] = Unknown
+            elif isinstance(st, ast.If):
+                t = ev(st.test)
+                contains = any(x is sched_call for b in (st.body, st.orelse) for y in b for x in ast.walk(y))
+                if t is Unknown or isinstance(t, (Ref,)) or not isinstance(t, (bool, int, float, str, type(None))):
+                    if contains:
+                        # the guard of the scheduler call itself (e.g. the attempt's outcome): look inside both ways
+                        run(st.body)
+                        run(st.orelse)
+                    else:
+                        for x in ast.walk(st):
+                            if isinstance(x, ast.Name) and isinstance(x.ctx, ast.Store):
+                                env[x.id] = Unknown
+                else:
+                    run(st.body if t else st.orelse)
+            elif isinstance(st, (ast.With, ast.AsyncWith, ast.Try)):
+                run(st.body)
+            elif isinstance(st, ast.While) and isinstance(st.test, ast.Constant) and st.test.value is True:
+                run([x for x in st.body if not isinstance(x, ast.Break)])
+            elif isinstance(st, ast.Return):
+                return
+
+    try:
+        run(stmts)
+    except _Found as f:
+        return f.value
+    return Unknown
 
 
 def spec_backoff(n: int) -> int:
@@ -591,23 +652,21 @@ def r3(ctx: Ctx, rl: RL) -> None:
         ok = tab[(False, True, False)] == (True, True) and not tab[(True, True, False)][0]
         ctx.ob("C18.R3", A, "retry scheduled iff the attempt failed", ok, fmt_table(["attempt_ok", "disconnected", "stopped"], tab), node=c)
         ctx.ob("C18.R3", A, c, rl.lexically_locked(A, c), "retry must be scheduled while still holding the lock (stop() cancels under the lock)", node=c)
-        # the back-off function
+        # the back-off function: constant propagation through the statements of the lock region that lead to
+        # the scheduler call, with the failure count as the only input (branches on folded conditions are followed)
         if c.args:
-            e = _subst_attr(_inline_locals(A, c.args[0]), "_tries", "__n__")
-            free = {x.id for x in ast.walk(e) if isinstance(x, ast.Name)} - {"__n__", "min", "max", "round", "int", "float", "abs"}
-            free = {x for x in free if ctx.sym.resolve_name(MOD, x) is Unknown}
-            if free or any(isinstance(x, ast.Attribute) and _self_attr(x) for x in ast.walk(e)):
-                raise AnalysisError(f"back-off expression {norm(e)} depends on {sorted(free) or 'other attributes'}: outside the evaluator's fragment")
+            stmts = A.node.body
             bad = []
             vals = {}
             for n in range(1, 201):
-                v = ctx.sym.eval(e, MOD, {"__n__": n})
+                v = _fold_delay(ctx, stmts, c, n)
                 if v is Unknown or not isinstance(v, (int, float)) or isinstance(v, bool):
-                    raise AnalysisError(f"back-off expression {norm(e)} cannot be evaluated for n={n}")
+                    raise AnalysisError(f"back-off delay {norm(c.args[0])} cannot be folded for n={n} (got {v!r}): outside the evaluator's fragment")
                 vals[n] = v
                 if v != spec_backoff(n):
                     bad.append((n, v, spec_backoff(n)))
-            ctx.ob("C18.R3", A, f"back-off delay equals min(round(1.8^n), 60) for every n in 1..200: {norm(e)[:90]}", not bad, f"first deviations (n, code, spec): {bad[:4]}" if bad else f"n=1..8 -> {[vals[i] for i in range(1, 9)]}", node=c)
+            e = c.args[0]
+            ctx.ob("C18.R3", A, "back-off delay equals min(round(1.8^n), 60) for every n in 1..200", not bad, f"first deviations (n, code, spec): {bad[:4]}" if bad else f"n=1..8 -> {[vals[i] for i in range(1, 9)]}", node=c)
             ctx.analysed["backoff_table"] = {str(k): vals[k] for k in (1, 2, 3, 4, 5, 6, 7, 8, 10, 11, 100, 200)}
             # zero failures cannot reach this site with delay 0 semantics hidden: n=0 gives round(1)=1 (never 'immediately')
             # auth failures
